@@ -29,7 +29,7 @@ def main():
     programs = 0
     pairs_compared = 0
 
-    def judge_entry(er, w, tags, expected=None):
+    def judge_entry(er, w, tags, labeler=None):
         nonlocal programs, pairs_compared
         if "compile_panic" in er:
             msg = er["compile_panic"]
@@ -65,7 +65,16 @@ def main():
                     chk.inconc("budget-or-no-verdict")
                     continue
                 cls = lambda o: "value" if o.startswith("ok:") else o
-                label = "+".join(tags) if tags else "untagged"
+                # exact attribution for generated modules: the label of the recorded source-level
+                # deviation that reproduces the final compiled outcome (aiken_ref.explain), if any
+                label = None
+                if labeler is not None:
+                    try:
+                        label = labeler(k)
+                    except Exception:
+                        chk.count("explain_errors")
+                if not label:
+                    label = "harvested" if tags == ["harvested"] else "unexplained"
                 chk.violation(f"C02|pass-changes-outcome|{nxt['after']}|{cls(x)}->{cls(y)}|{label}", {**w, "pass": nxt["after"], "argument_tuple_index": k, "before_pass": x[:300], "after_pass": y[:300], "all_stages": [[s["after"], s["outcomes"][k][:80]] for s in stages]})
                 bad = True
                 break
@@ -96,7 +105,13 @@ def main():
                 continue
             tags = sorted(f for f in c["features"] if f.startswith("known:"))
             for e, er in zip(c["entries"], run["entries"]):
-                judge_entry(er, {"origin": f"g-aiken:{stream}:{seed}:{c['index']}", "source": c["src"], "entry": e["name"], "tracing": run["tracing"], "args": [e["args"][i] for i in e["sent"]][:8]}, tags)
+                def labeler(pos, c=c, e=e, er=er, run=run):
+                    import run_c01
+
+                    got = (er.get("results") or [])[pos]
+                    return run_c01.explain(seed, c["index"], n_args, opts, e["name"], e["sent"][pos], run["tracing"], got)
+
+                judge_entry(er, {"origin": f"g-aiken:{stream}:{seed}:{c['index']}", "source": c["src"], "entry": e["name"], "tracing": run["tracing"], "args": [e["args"][i] for i in e["sent"]][:8]}, tags, labeler)
     hjobs, meta = A.jobs_for_harvested(lambda c: [["silent-all"], ["verbose-all"]][c["index"] % 2], snapshots=True, limit=None if not quick else 250)
     res = A.run(hjobs, timeout=600)
     for j in hjobs:
